@@ -150,12 +150,35 @@ def nontrivial(c, o):
 RULE = ("systematic: {for over a local, for over an injected struct field (every step evaluation observable in the host store), forRange} x {break, continue, return, none} x 5 nesting positions (loop body, inside if, else, else-if, nested loop) x 3 iteration indexes, with Mark calls making the executed path observable; "
         "else-if chains of length 0-3 with every truth vector, with and without else; the 10,000-iteration cap (9,999 / 10,000 / unbounded); the four compound assignments on 8 target kinds (local, struct field, nested field by value and by pointer, map entries, slice elements); "
         "a local assigned two blocks deep read at top level; random statement trees of depth <= 3 (thorough 5) with ~5% wild constructs (non-boolean conditions, break outside loops, undefined locals); "
-        "compared: outcome class, returned value, cited positions, the full sequence of calls with argument values and dynamic types, and the host objects afterwards; distinct non-trivial = distinct statement-tree shapes containing a loop or branch")
+        "three driver-stated scenarios (forRange over a slice field that the body shrinks / grows through a host method: the indexes present at the start are visited once each); compared: outcome class, returned value, cited positions, the full sequence of calls with argument values and dynamic types, and the host objects afterwards; distinct non-trivial = distinct statement-tree shapes containing a loop or branch")
+
+
+def shrink_scenarios():
+    """forRange visits each index of the collection AS IT WAS when the loop started, exactly once — also when the body shortens
+    (h.ShrinkSL) or lengthens (h.PushSL) the slice field it ranges over.  The expectation is stated here: the Coq host model has
+    no method that changes a collection's length."""
+    h4 = lambda: inj_struct("h", sl=[4, 5, 6, 7])
+    mark = lambda x: scall(call("func", "Mark", [x]))
+    seq = lambda n: [["Mark", str(i)] for i in range(n)]
+    out = []
+    b1 = block([sforrange("k", "h.SL", block([mark(("var", "k")), sif(mk_ecmp("==", emath(mvar("k")), emath(mint(1))), block([scall(call("method", "h.ShrinkSL", []))]))])), mark(("const", kint(99)))])
+    out.append(("forrange-over-a-field-that-shrinks", b1, [h4(), inj_func("Mark")], {"class": "ok", "Mark": 5, "ShrinkSL": 1, "seq": [["Mark", "0"], ["Mark", "1"], ["ShrinkSL"], ["Mark", "2"], ["Mark", "3"], ["Mark", "99"]]}))
+    b2 = block([sforrange("k", "h.SL", block([scall(call("method", "h.ShrinkSL", [])), mark(("var", "k"))])), mark(("const", kint(99)))])
+    out.append(("forrange-over-a-field-shrunk-at-once", b2, [h4(), inj_func("Mark")], {"class": "ok", "Mark": 5, "ShrinkSL": 4}))
+    b3 = block([sforrange("k", "h.SL", block([mark(("var", "k")), scall(call("method", "h.PushSL", [("const", kint(1))]))])), mark(("const", kint(99)))])
+    out.append(("forrange-over-a-field-that-grows", b3, [h4(), inj_func("Mark")], {"class": "ok", "Mark": 5, "PushSL": 4}))
+    return out
+
+
+def stated(run):
+    bad = stated_scenarios(run, PID, shrink_scenarios(), "forRange visits each index present when the loop started exactly once, whatever the body does to the collection's length")
+    return bad == 0, {"stated_scenarios": len(shrink_scenarios())}
 
 
 def main(run):
     return lang_check(run, PID, make_cases, RULE,
-                      ["forRange over a map is compared on single-key maps or order-independent bodies (Go map iteration order is arbitrary; the theorems quantify over the key order)"], nontrivial)
+                      ["forRange over a map is compared on single-key maps or order-independent bodies (Go map iteration order is arbitrary; the theorems quantify over the key order)"], nontrivial,
+                      extra=("stated_C02: forRange over a slice field whose length the body changes visits the initial indexes (driver-stated expectation on the recorded calls)", stated))
 
 
 def replay(run, data):
